@@ -989,6 +989,9 @@ where
         _ => &rec,
     };
 
+    let viols_before_faulty_phases = viols.len();
+    let mut fresh_other_representation = false;
+
     // ---- P: printing into a failing formatter sink -----------------------------------------------
     let mut fmt_faults = 0usize;
     let mut sink_panicked_in_p = false;
@@ -1339,22 +1342,61 @@ where
     counts.flush_calls = wctl.flush_calls;
     counts.record_len = j.len();
 
-    // after the faulty sinks: the instance that went through them still prints its own text
+    // After the faulty sinks: the instance that went through them still prints its own text.
+    // Two builds of the same spec need not print the same text (a set operation may order its
+    // alternatives by a hash set's iteration order and still satisfy C13), so a difference from
+    // the first instance's text is a violation only if the text does not even denote the
+    // instance that printed it.  If it does, the byte-for-byte comparisons of this run against
+    // the first instance's text were comparing the wrong thing and are withdrawn.
     if fresh.is_some() || sink_panicked_in_p || wctl.sink_panicked {
+        let mut other_representation = false;
+        let mut s1 = false;
         for (b, want) in wrec.items().iter().zip(&printed) {
             match guarded(|| b.item.to_string()) {
                 Ok(s) if s == *want => {}
-                Ok(s) => viols.push(viol(
-                    "S1-print-after-faulty-sink-differs",
-                    format!("after its first print went to a failing sink the value prints {:?}; a fresh instance prints {:?}", s, want),
-                    Some(want),
-                )),
-                Err(p) => viols.push(viol(
-                    "S1-print-after-faulty-sink-differs",
-                    format!("after its first print went to a failing sink printing the value panics: {}", p),
-                    Some(want),
-                )),
+                Ok(s) => {
+                    let consistent = fresh.is_some()
+                        && matches!(
+                            guarded(|| s.parse::<T>().ok().map(|y| T::same_after_round_trip(&b.item, &y, &s, b.strict).is_ok())),
+                            Ok(Some(true))
+                        );
+                    if consistent {
+                        other_representation = true;
+                    } else {
+                        s1 = true;
+                        viols.push(viol(
+                            "S1-print-after-faulty-sink-differs",
+                            format!("after its first print went to a failing sink the value prints {:?}; a fresh instance prints {:?}", s, want),
+                            Some(want),
+                        ));
+                    }
+                }
+                Err(p) => {
+                    s1 = true;
+                    viols.push(viol(
+                        "S1-print-after-faulty-sink-differs",
+                        format!("after its first print went to a failing sink printing the value panics: {}", p),
+                        Some(want),
+                    ));
+                }
             }
+        }
+        if other_representation && !s1 {
+            stats.inc(C::fresh_instance_other_representation);
+            let mut kept: Vec<Violation> = Vec::new();
+            for (i, v) in std::mem::take(&mut viols).into_iter().enumerate() {
+                let text_comparison = matches!(
+                    v.class.as_str(),
+                    "P2-text-differs" | "P2-not-a-prefix" | "W1-acknowledged-bytes-inexact" | "W3-bytes-diverge"
+                );
+                if i >= viols_before_faulty_phases && text_comparison {
+                    continue;
+                }
+                kept.push(v);
+            }
+            viols = kept;
+            fresh_other_representation = true;
+            let _ = fresh_other_representation;
         }
     }
 
